@@ -180,7 +180,7 @@ PLAN['C05'] = {
     'technique': 'Kani full-domain harnesses on Grad select operations (value lane equals the point operation, lane uniformity, selected-operand derivative)',
     'level_text': 'Partial: for min, max, abs, neg the gradient value equals the point value for arbitrary seed lanes, lanes are treated uniformly and the derivative lanes are those of the selected operand (all f32 inputs, Kani). Arithmetic/transcendental derivative rules (bounded contract grad_rules: every RegOp variant against the textbook rule on a grid, arbitrary seeds) and the JIT (jit_grad) are bounded stand-ins, not discharged obligations.',
     'level_note': 'Trusted: Kani/CBMC. Not covered: derivative rules of arithmetic ops (relational float arithmetic is out of CBMC reach), symbolic derivative, JIT gradient evaluator.',
-    'legs': [leg_kani('leaf'), leg_bounded('grad_rules'), leg_bounded('jit_grad')],
+    'legs': [leg_kani('leaf'), leg_verus('vm'), leg_bounded('grad_rules'), leg_bounded('jit_grad')],
     'explanation': 'Only comparison/select bodies are tractable for CBMC; the rest is stated as not covered.',
     'assumptions': ['no error bound on derivative arithmetic is proved'],
 }
